@@ -125,6 +125,21 @@ theorem neg_is_complement (rx : RegexEngine) (path : ArgPath) (op pos : BinOp) (
   simp only [applyBinary, applyStatic]
   cases compileStaticRegex rx r <;> rfl
 
+/-- For instance `!=` on integers of either representation, on either argument path, is
+inequality of the numeric values. -/
+theorem neq_int (rx : RegexEngine) (path : ArgPath) (l r : Value) (x y : Int)
+    (hl : numVal l = some x) (hr : numVal r = some y) :
+    applyBinary rx path .notEquals l r = .ok (decide (x ≠ y)) := by
+  rw [neg_is_complement rx path .notEquals .equals l r rfl]
+  cases path <;>
+    simp [applyBinary, applyStatic, applyTagged, equalsOp, Outcome.map, eq_int l r x y hl hr]
+
+/-- Outside the two regex operations both dispatch tables (variable argument / tag argument) select
+the same operator function. -/
+theorem paths_agree (rx : RegexEngine) (op : BinOp) (l r : Value) (h : op.isRegex = false) :
+    applyBinary rx .static op l r = applyBinary rx .tagged op l r := by
+  cases op <;> simp [BinOp.isRegex] at h <;> rfl
+
 /-- `is_not_null` is the complement of `is_null`. -/
 theorem is_not_null_is_complement (v : Value) : applyUnary .isNotNull v = !applyUnary .isNull v :=
   rfl
@@ -317,6 +332,8 @@ end TF.C07
 #print axioms TF.C07.equals_null_right
 #print axioms TF.C07.equals_eq_value_eq
 #print axioms TF.C07.neg_is_complement
+#print axioms TF.C07.neq_int
+#print axioms TF.C07.paths_agree
 #print axioms TF.C07.is_not_null_is_complement
 #print axioms TF.C07.is_null_spec
 #print axioms TF.C07.one_of_list
